@@ -232,7 +232,7 @@ Inductive Step (g : cfg) (s : state) : action -> state -> list event -> Prop :=
          (mkS (aset c (mkP Connected (p_static old) None (Some (r_pk r)) (r_cver r) (r_wver r)
                            (p_lim old) None)
                     (del idx (aset c (accepted_peer p l r) (peers s))))
-              (del (r_pk r) (addr s))
+              (aset (r_pk r) c (del (r_pk r) (addr s)))
               (bump s (r_chal r)) (now s) (accept_signed g p r (signed s)))
          (ERemoved idx :: accept_events g p r c ch)
 | S_purge :
@@ -240,7 +240,7 @@ Inductive Step (g : cfg) (s : state) : action -> state -> list event -> Prop :=
          (mkS (filter (fun cp => negb (purgeable (now s) cp)) (peers s))
               (fold_left del_key_of (filter (purgeable (now s)) (peers s)) (addr s))
               (next s) (now s) (signed s))
-         (map (fun cp => ERemoved (fst cp)) (filter (purgeable (now s)) (peers s)))
+         (map (fun cp => EPurged (fst cp)) (filter (purgeable (now s)) (peers s)))
 | S_sign k m :
     Step g s (ARemoteSign k m)
          (mkS (peers s) (addr s) (bump s m) (now s) ((k, m) :: signed s)) [ESigned k m].
@@ -382,12 +382,13 @@ Fixpoint session (c : N) (tr : list event) : option (N * N) :=
   | EAccepted c' k ch :: l => if c' =? c then Some (k, ch) else session c l
   | EReset c' :: l => if c' =? c then None else session c l
   | ERemoved c' :: l => if c' =? c then None else session c l
+  | EPurged c' :: l => if c' =? c then None else session c l
   | _ :: l => session c l
   end.
 
 Definition touches (c : N) (e : event) : bool :=
   match e with
-  | EAccepted c' _ _ | EReset c' | ERemoved c' => c' =? c
+  | EAccepted c' _ _ | EReset c' | ERemoved c' | EPurged c' => c' =? c
   | _ => false
   end.
 
@@ -419,8 +420,9 @@ Qed.
 Lemma session_in c tr K ch : session c tr = Some (K, ch) -> In (EAccepted c K ch) tr.
 Proof.
   induction tr as [|e l IH]; cbn [session]; [discriminate|].
-  destruct e as [c' ch'|k m|c' k ch'|c'|c']; try (intros H; right; apply IH; exact H).
+  destruct e as [c' ch'|k m|c' k ch'|c'|c'|c']; try (intros H; right; apply IH; exact H).
   - destruct (N.eqb_spec c' c); intros H; [inv H; left; reflexivity|right; apply IH; exact H].
+  - destruct (c' =? c); intros H; [discriminate|right; apply IH; exact H].
   - destruct (c' =? c); intros H; [discriminate|right; apply IH; exact H].
   - destruct (c' =? c); intros H; [discriminate|right; apply IH; exact H].
 Qed.
@@ -998,8 +1000,8 @@ Definition addr_complete (s : state) : Prop :=
   forall c p K, aget c (peers s) = Some p -> p_pk p = Some K ->
   exists c', aget K (addr s) = Some c'.
 
-Definition is_removed (e : event) : bool := match e with ERemoved _ => true | _ => false end.
-Definition has_removed (tr : list event) : bool := existsb is_removed tr.
+Definition is_purged (e : event) : bool := match e with EPurged _ => true | _ => false end.
+Definition has_purged (tr : list event) : bool := existsb is_purged tr.
 
 Lemma aget_fold_del gone : forall a K c,
   aget K (fold_left del_key_of gone a) = Some c ->
@@ -1058,7 +1060,9 @@ Proof.
       { intros ->. rewrite Hp in Hq. inv Hq. apply HnK. eapply key_differs_false; eauto. }
       rewrite aget_aset_neq by exact Hn. eauto.
   - (* reconnection *)
-    destruct (N.eq_dec K (r_pk r)) as [->|HnK]; [rewrite aget_del_eq in Hget; discriminate|].
+    destruct (N.eq_dec K (r_pk r)) as [->|HnK].
+    { rewrite aget_aset_eq in Hget. inv Hget. rewrite aget_aset_eq. eexists. split; reflexivity. }
+    rewrite aget_aset_neq in Hget by exact HnK.
     rewrite aget_del_neq in Hget by exact HnK. destruct (HA _ _ Hget) as [q [Hq Hk]].
     assert (Hn : c0 <> c).
     { intros ->. rewrite Hp in Hq. inv Hq. apply HnK. eapply key_differs_false; eauto. }
@@ -1091,11 +1095,11 @@ Proof.
   destruct (f x); [discriminate|]. cbn [negb]. intros H. now rewrite IH.
 Qed.
 
-Lemma has_removed_app a b : has_removed (a ++ b) = has_removed a || has_removed b.
+Lemma has_purged_app a b : has_purged (a ++ b) = has_purged a || has_purged b.
 Proof. apply existsb_app. Qed.
 
 Lemma addr_complete_step g s a s' ev :
-  addr_complete s -> Step g s a s' ev -> has_removed ev = false -> addr_complete s'.
+  addr_complete s -> Step g s a s' ev -> has_purged ev = false -> addr_complete s'.
 Proof.
   intros HA HS Hrm.
   destruct HS as
@@ -1117,7 +1121,14 @@ Proof.
     destruct (N.eq_dec K (r_pk r)) as [->|HnK]; [rewrite aget_aset_eq; eauto|].
     rewrite aget_aset_neq by exact HnK.
     apply aget_aset_cases in Hget as [[-> ->]|[Hn Hget]]; [cbn in Hk; congruence|eapply HA; eauto].
-  - cbn in Hrm. discriminate.
+  - (* reconnection: removed and inserted again *)
+    intros c0 q K Hget Hk. cbn [addr peers] in *.
+    destruct (N.eq_dec K (r_pk r)) as [->|HnK]; [rewrite aget_aset_eq; eauto|].
+    rewrite aget_aset_neq by exact HnK. rewrite aget_del_neq by exact HnK.
+    apply aget_aset_cases in Hget as [[-> ->]|[Hn Hget]]; [cbn in Hk; congruence|].
+    destruct (N.eq_dec c0 idx) as [->|Hni]; [rewrite aget_del_eq in Hget; discriminate|].
+    rewrite aget_del_neq in Hget by exact Hni. rewrite aget_aset_neq in Hget by exact Hn.
+    eapply HA; eauto.
   - (* purge that removes nothing *)
     assert (Hg : filter (purgeable (now s)) (peers s) = []).
     { destruct (filter (purgeable (now s)) (peers s)); [reflexivity|cbn in Hrm; discriminate]. }
@@ -1127,12 +1138,12 @@ Proof.
 Qed.
 
 Theorem address_complete_guarded g n f0 tr s :
-  Reach g n f0 tr s -> has_removed tr = false -> addr_complete s.
+  Reach g n f0 tr s -> has_purged tr = false -> addr_complete s.
 Proof.
   induction 1 as [|tr s a s' outs ev HR IH Hok Hst]; intros Hrm.
   - intros c p K Hget Hk. apply aget_in in Hget. apply static_peers_in in Hget as [_ E].
     cbn [snd] in E. subst p. discriminate.
-  - rewrite has_removed_app in Hrm. apply orb_false_iff in Hrm as [H1 H2].
+  - rewrite has_purged_app in Hrm. apply orb_false_iff in Hrm as [H1 H2].
     eapply addr_complete_step; [apply IH; exact H2| |exact H1].
     eapply step_Step; [|exact Hst]. apply (Reach_Inv _ _ _ _ _ HR).
 Qed.
@@ -1177,22 +1188,23 @@ Proof.
 Qed.
 
 (* reconnection: key 2 authenticates on 2, the connection drops, key 2
-   authenticates again on 3: the old entry is merged and address_to_peers has
-   no entry for the key any more *)
+   authenticates again on 3: the old entry is merged (removed) and the key is
+   mapped to the new connection (before fix f517868 the key was lost here) *)
 Definition reconnect_acts : list action :=
   [ANewPeer 2; ARemoteSign 2 1; ADeliverResp 2 (mkR 2 (Sig 2 1) 2 vA vW) 0;
    ADisconnect 2 true;
    ANewPeer 3; ARemoteSign 2 3; ADeliverResp 3 (mkR 2 (Sig 2 3) 4 vA vW) 0].
 
-Lemma address_complete_refuted :
-  exists tr s c p K, Reach g1 1 1 tr s
-    /\ aget c (peers s) = Some p /\ p_status p = Connected /\ p_pk p = Some K
-    /\ aget K (addr s) = None.
+Lemma reconnection_keeps_key :
+  exists tr s p, Reach g1 1 1 tr s
+    /\ In (ERemoved 2) tr /\ aget 2 (peers s) = None
+    /\ aget 3 (peers s) = Some p /\ p_status p = Connected /\ p_pk p = Some 2
+    /\ aget 2 (addr s) = Some 3.
 Proof.
   destruct (run g1 (init 1 1) reconnect_acts) as [[s ev]| |] eqn:Hr; try (vm_compute in Hr; discriminate).
   pose proof (run_Reach g1 1 1 reconnect_acts [] (init 1 1) s ev (R_init _ _ _) eq_refl Hr) as HR.
   rewrite app_nil_r in HR. vm_compute in Hr. inv Hr.
-  eexists _, _, 3, _, 2. split; [exact HR|]. vm_compute. repeat split; reflexivity.
+  do 3 eexists. split; [exact HR|]. split; [left; reflexivity|]. vm_compute. repeat split; reflexivity.
 Qed.
 
 (* the purge drops the key of a live connection: key 2 is authenticated on 2
@@ -1278,8 +1290,8 @@ Qed.
 (* a response delivered on an entry that already records a different key *)
 Definition Known_C17_keychange (g : cfg) (s : state) (a : action) : Prop :=
   known_keychange g s a = true.
-(* a run in which an entry was removed from the collection (reconnection merge or purge) *)
-Definition Known_C17_removed (tr : list event) : Prop := has_removed tr = true.
+(* a run in which remove_disconnected_peers purged an entry *)
+Definition Known_C17_purged (tr : list event) : Prop := has_purged tr = true.
 
 Theorem no_panic_guarded' g n f0 tr s a site :
   Reach g n f0 tr s -> ~ Known_C17_keychange g s a -> step g s a <> Panic site.
@@ -1289,13 +1301,13 @@ Proof.
 Qed.
 
 Theorem address_complete_guarded' g n f0 tr s c p K :
-  Reach g n f0 tr s -> ~ Known_C17_removed tr ->
+  Reach g n f0 tr s -> ~ Known_C17_purged tr ->
   aget c (peers s) = Some p -> p_pk p = Some K ->
   exists c' p', aget K (addr s) = Some c' /\ aget c' (peers s) = Some p' /\ p_pk p' = Some K.
 Proof.
   intros HR Hk Hp HK.
-  assert (Hrm : has_removed tr = false).
-  { unfold Known_C17_removed in Hk. destruct (has_removed tr); [exfalso; auto|reflexivity]. }
+  assert (Hrm : has_purged tr = false).
+  { unfold Known_C17_purged in Hk. destruct (has_purged tr); [exfalso; auto|reflexivity]. }
   destruct (address_complete_guarded _ _ _ _ _ HR Hrm _ _ _ Hp HK) as [c' Hc'].
   destruct (address_sound _ _ _ _ _ HR _ _ Hc') as [p' [Hp' HK']]. eauto.
 Qed.
